@@ -2,7 +2,7 @@
 # tools/rerun_seeds.sh [glob]  — re-run, for every kept seeded change matching the glob (default all), the check that is
 # recorded as catching it, against a scratch worktree with the change applied.  Prints CAUGHT / MISSED per change.
 PAT=${1:-*}
-W=/var/tmp/wt-seedtest
+W=${SEED_WT:-/var/tmp/wt-seedtest}
 [ -d $W ] || git -C /repo worktree add --detach $W main -q
 cd /verif
 for d in seeded/$PAT; do
